@@ -63,14 +63,14 @@ func init() {
 
 func init() {
 	reg(&propCfg{ID: "C08", QuickRuns: 12000, QuickSecs: 40, ThoroughRuns: 300000, ThoroughSecs: 780, Chunk: 50,
-		RuleNote:   "C08: 1..3 connections with 2..12 requests each, a drawn subset of up to 3 (thorough 6) parked inside the implementation (in the callback or answering later from another goroutine); at every quiescence (before any release, after each release in scheduler-chosen order) every other written request must have its reply, and Tstat requests issued while the subset is parked must be answered; stratum 'shared-tag-groups' adds groups of 2..8 requests issued under one tag without waiting, checked for one-at-a-time execution and reply order. Every 10th run is the stratum 'auth-fid-blocked': server with AuthOps, one Tread or Twrite on an authentication fid parked inside AuthRead / AuthWrite; a Twrite and a Tread on the same afid, a Tattach naming it, Tstat / Twalk on other fids and requests on a second connection must all be answered meanwhile.",
+		RuleNote:   "C08: 1..3 connections with 2..12 requests each, a drawn subset of up to 3 (thorough 6) parked inside the implementation (in the callback or answering later from another goroutine); at every quiescence (before any release, after each release in scheduler-chosen order) every other written request must have its reply, and Tstat requests issued while the subset is parked must be answered; stratum 'shared-tag-groups' adds groups of 2..8 requests issued under one tag without waiting, checked for one-at-a-time execution and reply order. Every 10th run is the stratum 'auth-fid-blocked': server with AuthOps, one Tread or Twrite on an authentication fid parked inside AuthRead / AuthWrite; a Twrite and a Tread on the same afid, a Tattach naming it, Tstat / Twalk on other fids and requests on a second connection must all be answered meanwhile. Every 10th run (index 4) is the stratum 'fid-destroy-blocked': the FidDestroy callback of a Tclunk is parked; Tstat, Twalk, Tclunk, Tattach on the connection and requests on a second connection must be answered meanwhile.",
 		Real:       srvReal, Stub: srvStub,
 		ProbeNames: []string{"quiescence-with-requests-parked", "late-request-answered-while-others-parked", "shared-tag-group-of-3+", "group-member-parked-with-successors", "3+-held-simultaneously", "release-order-differs-from-arrival"}})
 }
 
 func init() {
 	reg(&propCfg{ID: "C11", QuickRuns: 12000, QuickSecs: 40, ThoroughRuns: 300000, ThoroughSecs: 780, Chunk: 50,
-		RuleNote:   "C11: a victim and a bystander connection run C03-style pipelined histories (fids attached, walked, opened, created, clunked, removed; up to 4 victim requests parked in the implementation); the victim's client end is closed, reset, or closed in the middle of a frame at a drawn step / at the first quiescence with requests parked / when idle; parked requests are released afterwards in scheduler-chosen order; then the bystander and a fresh connection are probed.",
+		RuleNote:   "C11: a victim and a bystander connection run C03-style pipelined histories (fids attached, walked, opened, created, clunked, removed; up to 4 victim requests parked in the implementation); the victim's client end is closed, reset, or closed in the middle of a frame at a drawn step / at the first quiescence with requests parked / when idle; parked requests are released afterwards in scheduler-chosen order; then the bystander and a fresh connection are probed. A quarter of the runs cancel parked victim requests through FlushOp before the cut; cut mode 'half-close': the victim stops reading after the set-up (24-byte transport, the server's writer blocks) and then ends only its sending direction.",
 		Real:       srvReal, Stub: srvStub,
 		ProbeNames: []string{"cut-with-requests-parked", "3+-held-simultaneously", "release-order-differs-from-arrival"}})
 }
@@ -78,14 +78,14 @@ func init() {
 func init() {
 	reg(&propCfg{ID: "C13", QuickRuns: 3000, QuickSecs: 40, ThoroughRuns: 200000, ThoroughSecs: 780, Chunk: 40,
 		Level:      "exploration",
-		RuleNote:   "C13 server strata: a session of 40..120 (thorough ..400) messages mixing 9/11-byte messages, Twrite up to msize-1 and Twstat of exactly msize bytes, msize 96..4096 so the 8 x msize receive buffer wraps many times, delivered by policy (1 byte per read, 1..3 bytes, random, everything, mixed), written in one piece, or with exactly one split point enumerated by run index (stride 13); some requests parked so that later bytes arrive while their payload is still referenced; 'server-fifo' issues the whole session under one tag (execution and reply order checked), 'server-concurrent' under distinct tags. Expected invocations and replies are a function of the stream. Stratum 'client' feeds the library client's receive loop a scripted reply stream (reads up to msize-24, stats) under the same policies. Every 8th run is the stratum 'server-handshake': the byte stream starts with the Tversion itself (plain or .u, msize above or below the server's), followed without waiting by 1..6 requests whose wire format depends on the dialect (Tattach, Tauth, Tcreate, Twstat, Tstat); delivered whole or with one enumerated split point, every message must get the reply it gets when delivered alone.",
+		RuleNote:   "C13 server strata: a session of 40..120 (thorough ..400) messages mixing 9/11-byte messages, Twrite up to msize-1 and Twstat of exactly msize bytes, msize 96..4096 so the 8 x msize receive buffer wraps many times, delivered by policy (1 byte per read, 1..3 bytes, random, everything, mixed), written in one piece, or with exactly one split point enumerated by run index (stride 13); some requests parked so that later bytes arrive while their payload is still referenced; 'server-fifo' issues the whole session under one tag (execution and reply order checked), 'server-concurrent' under distinct tags. Expected invocations and replies are a function of the stream. Stratum 'client' feeds the library client's receive loop a scripted reply stream (reads up to msize-24, stats) under the same policies. Every 8th run is the stratum 'server-handshake': the byte stream starts with the Tversion itself (plain or .u, msize above or below the server's), followed without waiting by 1..6 requests whose wire format depends on the dialect (Tattach, Tauth, Tcreate, Twstat, Tstat); delivered whole or with one enumerated split point, every message must get the reply it gets when delivered alone. Rule s6-held-up (distinct-tag sessions): at every quiescence with requests parked in the implementation, each message that is not parked has its reply. Handshake streams have 1..6 or 30..90 messages and client msize 64..8192.",
 		Real:       append(append([]string{}, srvReal...), "go9p client receive loop (client stratum)"), Stub: srvStub,
 		ProbeNames: []string{"message-of-exactly-msize", "session-larger-than-receive-buffer", "split-inside-first-size-prefix"}})
 }
 
 func init() {
 	reg(&propCfg{ID: "C12", QuickRuns: 2000, QuickSecs: 40, ThoroughRuns: 200000, ThoroughSecs: 780, Chunk: 50,
-		RuleNote:   "C12 strata by run index: 'grid' enumerates server msize {default,24,25,64,300,8192,1 MiB+24} x client msize {0,23,24,25,server-1,server,server+1,2^32-1,200,4096} x server dialect x version string {9P2000,9P2000.u,9P2000.L,'',unknown} (700 cells, each revisited under new schedules) and then measures every reply kind on the wire with the script producing Rstat / Rerror at msize-1, msize, msize+1, 2*msize, reads up to msize-24 and a 16-element walk; 'bad-frame' announces sizes 0..6, msize+1, 8*msize+1, 2^31, 2^32-1 with and without a partial body; 'client' runs Connect against scripted Rversion (msize <,=,> the client's, five version strings); 'renegotiate' sends a second Tversion with a smaller msize after the reply-buffer pool was filled, optionally with requests parked. In 'grid' cells whose Tversion is refused (msize < 24) a proper Tversion follows on the same connection and must be negotiated and served as on a fresh one.",
+		RuleNote:   "C12 strata by run index: 'grid' enumerates server msize {default,24,25,64,300,8192,1 MiB+24} x client msize {0,23,24,25,server-1,server,server+1,2^32-1,200,4096} x server dialect x version string {9P2000,9P2000.u,9P2000.L,'',unknown} (700 cells, each revisited under new schedules) and then measures every reply kind on the wire with the script producing Rstat / Rerror at msize-1, msize, msize+1, 2*msize, reads up to msize-24 and a 16-element walk; 'bad-frame' announces sizes 0..6, msize+1, 8*msize+1, 2^31, 2^32-1 with and without a partial body; 'client' runs Connect against scripted Rversion (msize <,=,> the client's, five version strings); 'renegotiate' sends a second Tversion with a smaller msize after the reply-buffer pool was filled, optionally with requests parked. In 'grid' cells whose Tversion is refused (msize < 24) a proper Tversion follows on the same connection and must be negotiated and served as on a fresh one. The reads parked across the second Tversion ask for up to 3000 bytes (their replies would exceed the new msize).",
 		Real:       append(append([]string{}, srvReal...), "go9p client Connect/Attach (client stratum)"), Stub: srvStub,
 		ProbeNames: []string{"msize-too-small-refused", "rstat-sent", "reply-refused-for-size", "rerror-full-text-sent", "rerror-shortened-or-replaced", "reply-buffer-older-than-negotiation", "renegotiation-with-requests-outstanding"}})
 }
@@ -95,14 +95,14 @@ var clntStub = []string{"9P server: scripted peer with an independent codec, ans
 
 func init() {
 	reg(&propCfg{ID: "C09", QuickRuns: 2000, QuickSecs: 40, ThoroughRuns: 200000, ThoroughSecs: 780, Chunk: 25, WatchdogSecs: 900,
-		RuleNote:   "C09: stratum 'concurrent': 1..16 (thorough ..64) caller goroutines with 2..8 calls each (Read, Write, Stat, Walk, Open, Clunk, reads answered with Rerror text+number, reads answered with a reply of the wrong type, pipelined Tag-interface reads sharing a tag); the scripted server withholds replies with drawn probability and releases them one per phase in scheduler-chosen order, replies segmented by policy; reply content is a function of the request. Stratum 'long-run' (every 50th run): 10 000 (thorough 70 000 > 65 535) consecutive calls over one connection. Stratum 'long-run-wide' (quick: one run, thorough: every 800th): 100 000 calls, 64 at a time in flight through ReqAlloc/Rpcnb/ReqFree, so that 48 of every 64 request slots overflow the client's 16-slot cache and their tags pass through the tag pool (more than 65 535 pool round trips). Callers also use the path helpers FStat / FOpen / FWalk, with names the scripted server refuses (Rerror) or walks only partly; pipelined Tag reads hand their completions to a consumer channel of capacity n, 0 or 1 and must complete in issue order (c4-tag-order).",
+		RuleNote:   "C09: stratum 'concurrent': 1..16 (thorough ..64) caller goroutines with 2..8 calls each (Read, Write, Stat, Walk, Open, Clunk, reads answered with Rerror text+number, reads answered with a reply of the wrong type, pipelined Tag-interface reads sharing a tag); the scripted server withholds replies with drawn probability and releases them one per phase in scheduler-chosen order, replies segmented by policy; reply content is a function of the request. Stratum 'long-run' (every 50th run): 10 000 (thorough 70 000 > 65 535) consecutive calls over one connection. Stratum 'long-run-wide' (quick: one run, thorough: every 800th): 100 000 calls, 64 at a time in flight through ReqAlloc/Rpcnb/ReqFree, so that 48 of every 64 request slots overflow the client's 16-slot cache and their tags pass through the tag pool (more than 65 535 pool round trips). Callers also use the path helpers FStat / FOpen / FWalk, with names the scripted server refuses (Rerror) or walks only partly; pipelined Tag reads hand their completions to a consumer channel of capacity n, 0 or 1 and must complete in issue order (c4-tag-order). Op 'rpcnb': two non-blocking requests (ReqAlloc, caller-owned completion channel, Rpcnb, ReqFree), the second answered normally, with Rerror or with the wrong reply type, the first freed while the second is outstanding. A share of the pipelined Tag reads is refused or answered with the wrong type and must complete with an error.",
 		Real:       clntReal, Stub: clntStub,
 		ProbeNames: []string{"8+-calls-outstanding", "32+-calls-outstanding", "replies-delivered-out-of-order", "tag-value-reused-after-free", "5+-replies-withheld"}})
 }
 
 func init() {
 	note := "C04/C05 share one harness: histories of 10..40 (thorough ..200) requests over fid numbers {0..5,7,NOFID,NOFID-1} on 1..2 connections using the same numbers, all message types incl. walks that are full, partial, failing, zero-name, in place or onto a used newfid, attach with/without afid, open modes incl. OTRUNC/ORCLOSE, create perms incl. DMDIR and the special-file bits, read/write counts at 0, 1, msize-25, msize-24, msize-23, 2^31, 2^32-24, 2^32-11, 2^32-1, both dialects, with and without AuthOps; the generator runs the reference model forward to keep histories in interesting states. Requests are issued one at a time (the next the moment the previous reply is readable, while the previous worker may still be running); every reply, every implementation call (operation, fid object identity, user, arguments) and every FidDestroy is compared with the reference fid-table model, then every fid number is probed."
-	reg(&propCfg{ID: "C04", QuickRuns: 10000, QuickSecs: 40, ThoroughRuns: 200000, ThoroughSecs: 780, Chunk: 50, RuleNote: note + " C04 evaluates rules a*: validity, refusal texts, forwarding of requests naming invalid fids, user binding, FidDestroy exactly once and not after the invalidating reply, final probes. 30 % of the forwarded Twrites are parked in the implementation while a filler request arrives (arguments and payload must stay intact). 60 % of C04 histories end with an epilogue: on some connections a parked request is cancelled by Tflush (FlushOp), then the client leaves, and every fid object ever shown to the implementation must have been reported destroyed exactly once. Every 10th C04 run is the stratum 'ufs-fid-table': 10..40 (thorough ..150) requests of all kinds over six fid numbers against the real Ufs (including hard-link creates that name a source fid), validity model driven by the replies, Tstat probes at the end. Every 5th run of C04 is the stratum 'concurrent-batch': after a prologue, 2..8 (thorough ..30) rounds each send 2..4 requests (Tattach, Twalk to a new or the same fid with 0/1 names, Tclunk, Tremove, Tstat) that mostly meet on one of four fid numbers, in one segment or back to back, the implementation holding a drawn share of them until released in drawn order; the replies, the implementation calls per request and the validity of every number afterwards (probed with Tstat) must be explained by some order of the batch applied to the fid-table model (all orders tried; a request overlapping an invalidation or an unanswered bind of its fid may go either way), and at the end every fid object shown to the implementation is reported destroyed exactly once unless still valid.",
+	reg(&propCfg{ID: "C04", QuickRuns: 10000, QuickSecs: 40, ThoroughRuns: 200000, ThoroughSecs: 780, Chunk: 50, RuleNote: note + " C04 evaluates rules a*: validity, refusal texts, forwarding of requests naming invalid fids, user binding, FidDestroy exactly once and not after the invalidating reply, final probes. 8 % of the forwarded requests are cancelled while the implementation holds them (Tflush, FlushOp calling req.Flush()): no reply, model restored, history goes on. 30 % of the forwarded Twrites are parked in the implementation while a filler request arrives (arguments and payload must stay intact). 60 % of C04 histories end with an epilogue: on some connections a parked request is cancelled by Tflush (FlushOp), then the client leaves, and every fid object ever shown to the implementation must have been reported destroyed exactly once. Every 10th C04 run is the stratum 'ufs-fid-table': 10..40 (thorough ..150) requests of all kinds over six fid numbers against the real Ufs (including hard-link creates that name a source fid), validity model driven by the replies, Tstat probes at the end. Every 5th run of C04 is the stratum 'concurrent-batch': after a prologue, 2..8 (thorough ..30) rounds each send 2..4 requests (Tattach, Twalk to a new or the same fid with 0/1 names, Tclunk, Tremove, Tstat) that mostly meet on one of four fid numbers, in one segment or back to back, the implementation holding a drawn share of them until released in drawn order; the replies, the implementation calls per request and the validity of every number afterwards (probed with Tstat) must be explained by some order of the batch applied to the fid-table model (all orders tried; a request overlapping an invalidation or an unanswered bind of its fid may go either way), and at the end every fid object shown to the implementation is reported destroyed exactly once unless still valid.",
 		Real: srvReal, Stub: srvStub, ProbeNames: []string{"refused-before-forward", "fid-invalidated", "forwarded-walk", "forwarded-attach"}})
 	reg(&propCfg{ID: "C05", QuickRuns: 8000, QuickSecs: 40, ThoroughRuns: 200000, ThoroughSecs: 780, Chunk: 50, RuleNote: note + " C05 evaluates rules b*: refusal before forwarding for every protocol rule, forwarded exactly once with the fid object, user and arguments named, reply equal to what the implementation produced, authentication gate.",
 		Real: srvReal, Stub: srvStub, ProbeNames: []string{"refused-before-forward", "forwarded-read", "forwarded-write", "forwarded-create", "forwarded-open"}})
@@ -113,14 +113,14 @@ var ufsStub = []string{"transport: simulated net.Conn (segmentation by policy)",
 
 func init() {
 	reg(&propCfg{ID: "C14", QuickRuns: 3000, QuickSecs: 40, ThoroughRuns: 60000, ThoroughSecs: 780, Chunk: 20,
-		RuleNote:   "C14: 1..4 (thorough ..6) caller goroutines, each with 1..3 files of length 0, 1, iounit-1, iounit, iounit+1, 2*iounit+-1, 3*iounit+7 or random up to 5 iounits (seeded content), iounit 128..65512 further limited by the server's msize, both dialects; 2..8 operations per file drawn from Clnt.Read/Write, File.Read/Write/ReadAt/WriteAt/Readn/Written and a full sequential read, offsets at 0, EOF, EOF+1, beyond, iounit multiples -1, counts 0, 1, iounit-1..iounit+1, 2 and 3 iounits; every result is compared with a byte-slice model and, after every write, the model with os.ReadFile. Every 5th run injects OS errors into Ufs (10-80 per mille, at most 5): a call running while an error fired may fail, but what it reports as written must be in the file and nothing else may change.",
+		RuleNote:   "C14: 1..4 (thorough ..6) caller goroutines, each with 1..3 files of length 0, 1, iounit-1, iounit, iounit+1, 2*iounit+-1, 3*iounit+7 or random up to 5 iounits (seeded content), iounit 128..65512 further limited by the server's msize, both dialects; 2..8 operations per file drawn from Clnt.Read/Write, File.Read/Write/ReadAt/WriteAt/Readn/Written and a full sequential read, offsets at 0, EOF, EOF+1, beyond, iounit multiples -1, counts 0, 1, iounit-1..iounit+1, 2 and 3 iounits; every result is compared with a byte-slice model and, after every write, the model with os.ReadFile. Every 5th run injects OS errors into Ufs (10-80 per mille, at most 5): a call running while an error fired may fail, but what it reports as written must be in the file and nothing else may change. Read offsets include 2^32, 2^32+1, 2^40.",
 		Real:       ufsReal, Stub: ufsStub,
 		ProbeNames: []string{"read-at-or-past-eof", "read-ending-exactly-at-eof", "write-past-eof", "read-spanning-3+-messages", "readn-spanning-messages", "written-spanning-messages"}})
 }
 
 func init() {
 	reg(&propCfg{ID: "C15", QuickRuns: 8000, QuickSecs: 40, ThoroughRuns: 100000, ThoroughSecs: 780, Chunk: 25,
-		RuleNote:   "C15: directories of 0, 1, 2, 3, 7, 50 (thorough also 1000 and 3000) entries with name lengths 1..255 (so entry sizes vary), files and subdirectories, msize 256..64 KiB, both dialects. Five strata by run index: a fixed count enumerated from the largest entry size up to about three entries; random counts per read; a listing abandoned after 1..3 replies and restarted at offset 0; the client's Readdir(0) and Readdir(n); a count smaller than the first entry. Every Rread payload is split into whole records by the independent stat decoder and the concatenated listing is compared with os.ReadDir. The too-small stratum also lists up to a drawn entry k, offers less than entry k needs at that offset (Rerror expected, not an empty reply) and then reads entry k with exactly its size.",
+		RuleNote:   "C15: directories of 0, 1, 2, 3, 7, 50 (thorough also 1000 and 3000) entries with name lengths 1..255 (so entry sizes vary), files and subdirectories, msize 256..64 KiB, both dialects. Five strata by run index: a fixed count enumerated from the largest entry size up to about three entries; random counts per read; a listing abandoned after 1..3 replies and restarted at offset 0; the client's Readdir(0) and Readdir(n); a count smaller than the first entry. Every Rread payload is split into whole records by the independent stat decoder and the concatenated listing is compared with os.ReadDir. The too-small stratum also lists up to a drawn entry k, offers less than entry k needs at that offset (Rerror expected, not an empty reply) and then reads entry k with exactly its size. The too-small stratum also opens a fresh fid whose very first read is too small (Rerror) and then lists through it.",
 		Real:       ufsReal, Stub: ufsStub,
 		ProbeNames: []string{"fixed-count-listing", "restart-at-zero-mid-listing", "client-readdir", "count-too-small"}})
 }
@@ -134,21 +134,21 @@ func init() {
 
 func init() {
 	reg(&propCfg{ID: "C17", QuickRuns: 3000, QuickSecs: 40, ThoroughRuns: 50000, ThoroughSecs: 780, Chunk: 20,
-		RuleNote:   "C17: a random tree (3..25 entries: files, directories, symlinks, hard links) is created twice; 8..30 (thorough ..80) mutations drawn against the current state — create of a file with each open mode +-OTRUNC followed by a write through the new fid, of a directory, symlink (also dangling) and hard link, write to an existing file, remove of files and of empty and non-empty directories, wstat rename to free and occupied names, truncate to 0..beyond size, chmod, mtime — are applied through raw 9P requests to tree A and with the os package to twin B; after every step the trees are compared recursively (names, kinds, permission bits, contents, link targets, link counts), error replies must leave A unchanged (create, remove) and carry the errno of the POSIX failure in 9P2000.u, and Tstat on the fid after create/rename must name the new object. Create over an existing name may either fail or behave like a non-exclusive open. Every 4th run (stratum os-error) lets one os / syscall call of the mutating request fail with a drawn errno (EIO, ENOSPC, EACCES, EMFILE, ENOENT, EINTR, EROFS, ENOMEM) instead of being performed: the reply must carry that errno, a failed create/remove must leave the tree unchanged, and the twin is re-synchronised afterwards. With probability 0.4 a Twstat step (rename, truncate, chmod, chown, mtime) is sent on a fid that was first opened with a drawn mode (OREAD/OWRITE/ORDWR/OEXEC). Every 4th run is the stratum 'session': 1..4 long-lived fids, each modelled as the path it designates plus (once open) an open file of the twin; 16..60 requests (Tstat, Topen with every mode, Twrite, Tread, Twstat length / mode / name, Tremove, Tcreate through a directory fid, Tclunk) go through a drawn live fid, the twin gets the POSIX operation on that path or open file, replies, read data, stat fields and the two trees are compared after every step; fids that a rename or remove would leave dangling are clunked first. Half of all Twrites are followed at once by 1..3 further requests.",
+		RuleNote:   "C17: a random tree (3..25 entries: files, directories, symlinks, hard links) is created twice; 8..30 (thorough ..80) mutations drawn against the current state — create of a file with each open mode +-OTRUNC followed by a write through the new fid, of a directory, symlink (also dangling) and hard link, write to an existing file, remove of files and of empty and non-empty directories, wstat rename to free and occupied names, truncate to 0..beyond size, chmod, mtime — are applied through raw 9P requests to tree A and with the os package to twin B; after every step the trees are compared recursively (names, kinds, permission bits, contents, link targets, link counts), error replies must leave A unchanged (create, remove) and carry the errno of the POSIX failure in 9P2000.u, and Tstat on the fid after create/rename must name the new object. Create over an existing name may either fail or behave like a non-exclusive open. Every 4th run (stratum os-error) lets one os / syscall call of the mutating request fail with a drawn errno (EIO, ENOSPC, EACCES, EMFILE, ENOENT, EINTR, EROFS, ENOMEM) instead of being performed: the reply must carry that errno, a failed create/remove must leave the tree unchanged, and the twin is re-synchronised afterwards. With probability 0.4 a Twstat step (rename, truncate, chmod, chown, mtime) is sent on a fid that was first opened with a drawn mode (OREAD/OWRITE/ORDWR/OEXEC). Every 4th run is the stratum 'session': 1..4 long-lived fids, each modelled as the path it designates plus (once open) an open file of the twin; 16..60 requests (Tstat, Topen with every mode, Twrite, Tread, Twstat length / mode / name, Tremove, Tcreate through a directory fid, Tclunk) go through a drawn live fid, the twin gets the POSIX operation on that path or open file, replies, read data, stat fields and the two trees are compared after every step; fids that a rename or remove would leave dangling are clunked first. Half of all Twrites are followed at once by 1..3 further requests. Step kind 12 sends one Twstat with a drawn combination of permission bits, name, length and mtime; the twin applies chmod, rename, truncate, utimes in that order.",
 		Real:       ufsReal, Stub: ufsStub,
 		ProbeNames: []string{"create-error", "remove-error", "rename", "truncate", "chmod", "set-mtime", "symlink-create", "hardlink-create"}})
 }
 
 func init() {
 	reg(&propCfg{ID: "C18", QuickRuns: 3000, QuickSecs: 40, ThoroughRuns: 60000, ThoroughSecs: 780, Chunk: 20,
-		RuleNote:   "C18: layout outer/{canary.txt, canarydir/inside.txt, root/...} with a further canary above; 6..20 attacking connections per run, each with an attach name, 0..4 walk elements, a create name and a rename target drawn from a grammar over '..', '.', '', '/', absolute paths, '../' chains, elements containing '/', and mixtures with real names, started at the root or at a random depth, followed by stat, open, read / directory read, write, create, rename and remove through whatever fid resulted. Canaries and everything else outside the root (mode, mtime, content, listing) must be unchanged, no qid returned may be that of an object outside the root (inode comparison), no data read may be a canary's, '..' at the root must yield the root's qid. Hostile creates use every kind (file, directory and, in 9P2000.u, symbolic link, hard link, named pipe, device, socket); after an Rcreate the fid is examined with Tstat and a walk to the canary's name.",
+		RuleNote:   "C18: layout outer/{canary.txt, canarydir/inside.txt, root/...} with a further canary above; 6..20 attacking connections per run, each with an attach name, 0..4 walk elements, a create name and a rename target drawn from a grammar over '..', '.', '', '/', absolute paths, '../' chains, elements containing '/', and mixtures with real names, started at the root or at a random depth, followed by stat, open, read / directory read, write, create, rename and remove through whatever fid resulted. Canaries and everything else outside the root (mode, mtime, content, listing) must be unchanged, no qid returned may be that of an object outside the root (inode comparison), no data read may be a canary's, '..' at the root must yield the root's qid. Hostile creates use every kind (file, directory and, in 9P2000.u, symbolic link, hard link, named pipe, device, socket); after an Rcreate the fid is examined with Tstat and a walk to the canary's name. Further steps: a Twstat rename through a fid that designates the root itself (cloned, or reached by 'sub','..'), and Twalk(0->N) + Twalk(N->M by the components of the canary's absolute path) + Tstat(M) written as one segment.",
 		Real:       ufsReal, Stub: ufsStub,
 		ProbeNames: []string{"dotdot-walk", "attach-refused"}})
 }
 
 func init() {
 	reg(&propCfg{ID: "C20", QuickRuns: 12000, QuickSecs: 40, ThoroughRuns: 300000, ThoroughSecs: 780, Chunk: 50,
-		RuleNote:   "C20: capacities 1, 2, 3, 5, 16, 17, 64; histories of 0, 1, N-1, N, N+1, 2N+1, 3N+2 and 10N entries (at most 400) from 3 owners and types {1,2,4}, in 1..4 batches. Stratum 'sequential': one producer; after each batch the system runs to quiescence and Filter (all, and drawn owner/type filters) is compared exactly with a reference ring of the last N entries. Stratum 'concurrent': 1..4 producers and 1..2 filterers as simulated goroutines; every result must contain only logged matching entries, no duplicates, at most N; per-producer order, real-time order and the order inside all results must be acyclic, no matching entry forced between two returned ones may be missing; after producers finish the exact (1 producer) or size (several) check applies; no Log/Filter call may be blocked at quiescence.",
+		RuleNote:   "C20: capacities 1, 2, 3, 5, 16, 17, 64; histories of 0, 1, N-1, N, N+1, 2N+1, 3N+2 and 10N entries (at most 400) from 3 owners and types {1,2,4}, in 1..4 batches. Stratum 'sequential': one producer; after each batch the system runs to quiescence and Filter (all, and drawn owner/type filters) is compared exactly with a reference ring of the last N entries. Stratum 'concurrent': 1..4 producers and 1..2 filterers as simulated goroutines; every result must contain only logged matching entries, no duplicates, at most N; per-producer order, real-time order and the order inside all results must be acyclic, no matching entry forced between two returned ones may be missing; after producers finish the exact (1 producer) or size (several) check applies; no Log/Filter call may be blocked at quiescence. (sync/atomic operations in the library are schedule points.)",
 		Real:       []string{"go9p Logger (NewLogger, Log, Filter, doLog goroutine) — instrumented copy of /repo", "Go runtime, channels"},
 		Stub:       []string{"callers: simulated producer and filterer goroutines"},
 		ProbeNames: []string{"ring-wrapped-3+-times"}})
@@ -164,7 +164,7 @@ func init() {
 
 func init() {
 	reg(&propCfg{ID: "C19", Race: true, QuickRuns: 2400, QuickSecs: 50, ThoroughRuns: 60000, ThoroughSecs: 900, Chunk: 30,
-		RuleNote:   "C19 runs in the race build (only go9p and the standard library are instrumented; scheduler and harness are compiled with -race=false and park/release inside RaceDisable regions, transport reads happen-after earlier writes like sockets do). Strata: 'script/pipelined' (C03 workload: 1..3 connections, up to 16 pipelined requests each on its own fid, answers from other goroutines), 'script/flushes' (C07 workload incl. Tversion at session start), 'ufs/shared-client' (2..8 goroutines sharing one client against Ufs, each on its own file, all walking from the shared root fid, reading a shared directory), 'script/connection-churn' (connections opened and dropped once their requests are answered while two others stay busy). Only race reports and crashes are judged. Added strata: 'client/shared-client' (2..8 goroutines sharing the library client against the scripted peer: Read/Write/Stat/Walk/Clunk, pipelined Tag reads, File.ReadAt, replies withheld and released in drawn order, client logging off / fcalls / packets with a goroutine reading the log), 'logger' (2..4 producers and 1..3 filterers on one Logger); the Ufs stratum uses 1..3 connections and includes '..' walks and renames.",
+		RuleNote:   "C19 runs in the race build (only go9p and the standard library are instrumented; scheduler and harness are compiled with -race=false and park/release inside RaceDisable regions, transport reads happen-after earlier writes like sockets do). Strata: 'script/pipelined' (C03 workload: 1..3 connections, up to 16 pipelined requests each on its own fid, answers from other goroutines), 'script/flushes' (C07 workload incl. Tversion at session start), 'ufs/shared-client' (2..8 goroutines sharing one client against Ufs, each on its own file, all walking from the shared root fid, reading a shared directory), 'script/connection-churn' (connections opened and dropped once their requests are answered while two others stay busy). Only race reports and crashes are judged. Added strata: 'client/shared-client' (2..8 goroutines sharing the library client against the scripted peer: Read/Write/Stat/Walk/Clunk, pipelined Tag reads, File.ReadAt, replies withheld and released in drawn order, client logging off / fcalls / packets with a goroutine reading the log), 'logger' (2..4 producers and 1..3 filterers on one Logger); the Ufs stratum uses 1..3 connections and includes '..' walks and renames. The client stratum also issues Tag-interface Walk / Stat / Open / Create / Clunk, some refused by the scripted server. One third of the server-side runs use an implementation with the optional request hooks.",
 		Real:       append(append(append([]string{}, srvReal...), "go9p client library", "go9p Ufs on a scratch tree"), "Go race detector"),
 		Stub:       srvStub,
 		ProbeNames: []string{}})
